@@ -1,6 +1,6 @@
 #!/usr/bin/env python3
 """Confirm a seeded change independently (scratch worktree), then run the property's check against it in /repo.
-usage: seed_eval.py <seed-dir> [--checks C01,C02] [--skip-confirm]
+usage: seed_eval.py <seed-dir> [--checks C01,C02] [--skip-confirm | --confirm-only]   (env SEED_W: scratch worktree for the confirmation)
 <seed-dir> contains patch.diff, demo.rs, meta.json."""
 import subprocess, sys, os, json, shutil, time
 def sh(cmd, cwd=None, timeout=3600):
@@ -15,10 +15,12 @@ def main():
     checks = [pid]
     if '--checks' in args: checks = args[args.index('--checks') + 1].split(',')
     res = {'property': pid}
-    W = '/tmp/seedcheck'
+    W = os.environ.get('SEED_W', '/tmp/seedcheck')
+    if '--skip-confirm' in args and os.path.exists(d + '/confirm.json'):
+        res.update(json.load(open(d + '/confirm.json')))
     if '--skip-confirm' not in args:
         if not os.path.exists(W):
-            rc, out = sh(f'git -C /repo worktree add -q {W} HEAD'); assert rc == 0, out
+            rc, out = sh(f'git -C /repo worktree add -q --detach {W} HEAD'); assert rc == 0, out
         sh('git checkout -q -- . && git clean -fdq -e target', cwd=W)
         shutil.copy(d + '/demo.rs', W + '/tests/zz_seed_demo.rs')
         F = '--features "serde swizzle mint"'
@@ -34,6 +36,10 @@ def main():
         bad += [l for l in out2.splitlines() if 'FAILED' in l or 'error' in l]
         res['existing_tests_with_change'] = 'pass' if not bad and 'test result: ok' in out else 'FAIL: ' + '; '.join(bad[:3])
         sh('git checkout -q -- . && git clean -fdq -e target', cwd=W)
+        if '--confirm-only' in args:
+            json.dump({k: v for k, v in res.items() if k != 'property'}, open(d + '/confirm.json', 'w'), indent=1)
+            print(json.dumps(res, indent=1))
+            return
     # run my checks against it in /repo
     rc, out = sh(f'git -C {REPO} status --porcelain'); assert out.strip() == '', 'repo not clean: ' + out
     rc, out = sh(f'git -C {REPO} apply {d}/patch.diff'); assert rc == 0, out
